@@ -13,11 +13,14 @@ PLACEHOLDERS = {"~E~": "Ã©", "~Z~": "å­—", "~M~": "ðŸ˜€", "~L~": "Â«", "~R~": "Â
 F32_EPS = Fraction(1, 2 ** 23)
 
 
-def spell_unit(u):
-    """a unit that would read as an exponent after the number (e5, E-2, e) is spelled with its first letter escaped"""
+def spell_unit(u, escaped=False):
+    """a unit that would read as an exponent after the number (e5, E-2, e) is spelled with its first letter escaped; with
+    `escaped`, every unit of the sheet has one letter written as an escape (the tokenizer resolves it: `r\\70x` is rpx)"""
     import re
     if re.match(r"^[eE]([0-9-]|$)", u):
         return "\\%x " % ord(u[0]) + u[1:]
+    if escaped and len(u) >= 2 and u.isalpha():
+        return u[0] + "\\%x " % ord(u[1]) + u[2:]
     return u
 
 
@@ -46,6 +49,7 @@ class Concretiser:
         self.col = 0
         self.pos = {}
         self.multiline = multiline
+        self.escape_units = rnd.random() < 0.12      # a sheet in which no unit is written plainly
 
     def emit(self, s):
         self.out.append(s)
@@ -74,7 +78,16 @@ class Concretiser:
             self.emit(self.rnd.choice([" ", "\n", "  "] if self.multiline else [" "]))
 
     def ident(self, v):
-        return v
+        """an identifier token with the escapes its value needs (`sm:flex` -> `sm\:flex`, `10px` -> `\31 0px`)"""
+        out = []
+        for i, ch in enumerate(v):
+            if ch.isascii() and ch.isdigit() and (i == 0 or (i == 1 and v[0] == "-")):
+                out.append("\\%x " % ord(ch))
+            elif ch.isalnum() or ch in "-_" or ord(ch) >= 0x80:
+                out.append(ch)
+            else:
+                out.append("\\" + ch)
+        return "".join(out)
 
     def string(self, v):
         q = self.rnd.choice(['"', "'"])
@@ -102,7 +115,7 @@ class Concretiser:
         elif k == "delim":
             self.emit(t["v"])
         elif k == "idhash" or k == "hash":
-            self.emit("#" + t["v"])
+            self.emit("#" + self.ident(t["v"]))
         elif k == "colon":
             self.emit(":")
         elif k == "comma":
@@ -112,7 +125,7 @@ class Concretiser:
         elif k == "url":
             self.emit(self.url(t["v"]))
         elif k == "dim":
-            self.emit(POOL[t["n"]] + spell_unit(t["unit"]))
+            self.emit(POOL[t["n"]] + spell_unit(t["unit"], self.escape_units))
         elif k == "num":
             self.emit(POOL[t["n"]])
         elif k == "pct":
@@ -354,7 +367,7 @@ def expected_src_positions(e, pos):
     return cands
 
 
-def check_srcmap(exp_seq, act_tokens, entries, pos, which, import_spans):
+def check_srcmap(exp_seq, act_tokens, entries, pos, which, import_spans, name_checks=None):
     findings = []
     act = flat(act_tokens)
     if len(act) != len(exp_seq):
@@ -390,6 +403,9 @@ def check_srcmap(exp_seq, act_tokens, entries, pos, which, import_spans):
             names = [en[4] for en in ens]
             if not any(nm for nm in names):
                 findings.append(("srcmap", which, "rewritten token %r carries no name (original spelling)" % a["text"]))
+            elif name_checks is not None:
+                # the name must SPELL the source token: read as CSS it is that token again
+                name_checks.append((which, a["text"], [nm for nm in names if nm][0], e))
     return findings
 
 
@@ -424,6 +440,7 @@ def evaluate(cases, rnd, ratios=(750,), multiline=True, variants=1):
             urange_findings.setdefault(i, []).append(("urange", "normal", "unicode-range %r denotes %s, the output %r denotes %s" % (
                 a, "U+%X-%X" % tuple(ra), b, ("U+%X-%X" % tuple(rb)) if rb else "nothing (not a valid range)")))
     out = []
+    pending_names = []
     for ui, (u, r) in enumerate(zip(units, vres)):
         c = u["case"]
         rec = {"case": u["ci"], "src": u["src"], "opts": u["opts"], "findings": [], "panic": r.get("panic") or [], "normal": r.get("normal"), "low": r.get("low")}
@@ -456,11 +473,27 @@ def evaluate(cases, rnd, ratios=(750,), multiline=True, variants=1):
         for (key, role), p in u["pos"].items():
             if role == "e":
                 spans[key] = (u["pos"][(key, "t")], p)
+        nchecks = []
         if ok1:
-            rec["findings"] += check_srcmap(c["normal"], r["ntok"], r["nmap"], u["pos"], "normal", spans)
+            rec["findings"] += check_srcmap(c["normal"], r["ntok"], r["nmap"], u["pos"], "normal", spans, nchecks)
         if ok2:
-            rec["findings"] += check_srcmap(c["low"], r["ltok"], r["lmap"], u["pos"], "low", spans)
+            rec["findings"] += check_srcmap(c["low"], r["ltok"], r["lmap"], u["pos"], "low", spans, nchecks)
+        for x in nchecks:
+            pending_names.append((rec, x))
         if not r.get("map_rt", True):
             rec["findings"].append(("srcmap", "json", "source map does not survive its JSON serialisation"))
         # the input itself must tokenise to the abstract sheet (sanity of the concretiser)
+    if pending_names:
+        uniq = sorted({x[2] for _, x in pending_names})
+        tk = {n: r_.get("tok") for n, r_ in zip(uniq, vlib.run_vh("css", [{"id": i, "tokenize": n} for i, n in enumerate(uniq)], jobs=2))}
+        for rec, (which, text, name, e) in pending_names:
+            toks = [t for t in (tk.get(name) or []) if t[0] != "ws"]
+            ok = len(toks) == 1
+            if ok and e["name"] == "rpx":
+                ok = toks[0][0] == "dim" and str((toks[0][1] or {}).get("unit", "")).lower() == "rpx"
+            elif ok:
+                ok = toks[0][0] == "ident" and toks[0][1] == e["name"]
+            if not ok:
+                rec["findings"].append(("srcmap", which, "the name %r of the rewritten token %r does not spell its source token (%s)" % (
+                    name, text, "an rpx length" if e["name"] == "rpx" else "the identifier %r" % e["name"])))
     return out
